@@ -5,7 +5,8 @@ Refuses if the class no longer occurs."""
 import json, subprocess, sys
 p = sys.argv[1]
 r = json.load(open(p))
-out = subprocess.run(["/verif/bin/verifsim", "exec", p], capture_output=True, text=True).stdout
+import os
+out = subprocess.run([os.environ.get("VERIFSIM", "/verif/bin/verifsim"), "exec", p], capture_output=True, text=True).stdout
 res = json.loads(out)
 vs = [v for v in res.get("violations", []) if v["class"] == r["class"]]
 if not vs:
